@@ -11,7 +11,8 @@
 //!         i                   next_correlation_id()             -> OI result
 //!         h:<t>               set_consumer_heartbeat_time(t); consumer_heartbeat_time() -> OH result
 //!         d                   dump of the non-zero words of the whole buffer            -> OD [...]
-//!   conc / crash: see conc.rs (deterministic scheduler on the verification hook)
+//!   conc / uconc: see conc.rs (deterministic scheduler on the verification hook); proxy: see proxy.rs
+//!   every write takes its payload from offset src_index_of(k) of a larger source buffer filled with 0xA5
 use aeron_rs::command::control_protocol_events::AeronCommand;
 use aeron_rs::concurrent::atomic_buffer::{AlignedBuffer, AtomicBuffer};
 use aeron_rs::concurrent::ring_buffer::{self as rb, ManyToOneRingBuffer, RingBufferError};
@@ -19,6 +20,7 @@ use std::sync::Arc;
 use vcommon::{catch, fmt_outcome, payload, sparse_words};
 
 mod conc;
+mod proxy;
 
 pub fn cmd_of(typ: i64) -> AeronCommand {
     if typ == -1 {
@@ -80,12 +82,27 @@ impl Ring {
     }
 }
 
-pub fn do_write(ring: &ManyToOneRingBuffer, typ: i64, len: i64, k: i64) -> String {
+/// the offset inside the source buffer at which the payload of write number k lies (8, 16 or 0): the bytes
+/// write() must copy are src[src_index .. src_index + length), whatever else the source buffer holds
+pub fn src_index_of(k: i64) -> i32 {
+    8 * (((k + 1).rem_euclid(3)) as i32)
+}
+
+/// a source buffer filled with 0xA5 that holds payload(k, len) at src_index_of(k), with 8 more bytes behind it
+pub fn source_for(k: i64, len: i64) -> (AlignedBuffer, i32) {
     let bytes = payload(k, len.max(0) as usize);
-    let src_mem = AlignedBuffer::with_capacity((len.max(0) as i32) + 8);
+    let si = src_index_of(k);
+    let src_mem = AlignedBuffer::with_capacity(si + (len.max(0) as i32) + 8);
     let src = AtomicBuffer::from_aligned(&src_mem);
-    src.put_bytes(0, &bytes);
-    fmt_write(catch(|| ring.write(cmd_of(typ), src, 0, len as i32)))
+    src.set_memory(0, src.capacity(), 0xA5);
+    src.put_bytes(si, &bytes);
+    (src_mem, si)
+}
+
+pub fn do_write(ring: &ManyToOneRingBuffer, typ: i64, len: i64, k: i64) -> String {
+    let (src_mem, si) = source_for(k, len);
+    let src = AtomicBuffer::from_aligned(&src_mem);
+    fmt_write(catch(|| ring.write(cmd_of(typ), src, si, len as i32)))
 }
 
 pub fn do_read(ring: &ManyToOneRingBuffer, limit: i64) -> (String, Vec<(i32, Vec<u8>)>) {
@@ -154,6 +171,8 @@ fn main() {
         match parts[0] {
             "seq" => case_seq(&parts[1..]),
             "conc" => conc::case_conc(&parts[1..]),
+            "uconc" => conc::case_uconc(&parts[1..]),
+            "proxy" => proxy::case_proxy(&parts[1..]),
             other => panic!("unknown case kind {}", other),
         }
     });
